@@ -5,6 +5,7 @@ import (
 	"go/ast"
 	"go/parser"
 	"go/token"
+	"os"
 	"regexp"
 	"sort"
 	"strings"
@@ -156,3 +157,5 @@ func replayFindings(r *hx.Run, eval func(c *progCase) (sig, msg string)) {
 		}
 	}
 }
+
+func os_collect() bool { return os.Getenv("VERIF_COLLECT") != "" }
